@@ -360,9 +360,17 @@ def r6_verdict_arms(ctx):
     q = "Reaction.check_consistent_units"
     chk(CHEM, q, "except Exception: if throw: raise else: return False else: return True", "incompatible->raise/False;compatible->True",
         "a constant that cannot be stripped against concentration^(1-order)/time is refused (raise or False), one that can is accepted")
-    chk(CHEM, q, "param = self.param.item()({'temperature': 1 * default_units.K}) * self.param.units", "expr-constant-evaluated-at-a-temperature",
-        "a unit-carrying rate expression is evaluated at a temperature (in kelvin) and re-attached to its own unit")
     fn = ctx.func(CHEM, q)
+    ev = [c for c in ast.walk(fn) if isinstance(c, ast.Call) and U(c.func) == "self.param.item()" and c.args and isinstance(c.args[0], ast.Dict)]
+    ok = len(ev) == 1
+    if ok:
+        d = ev[0].args[0]
+        kv = {k.value: v for k, v in zip(d.keys, d.values) if isinstance(k, ast.Constant)}
+        tv = kv.get("temperature")
+        ok = tv is not None and isinstance(tv, ast.BinOp) and isinstance(tv.op, ast.Mult) and any(isinstance(x, ast.Attribute) and x.attr in ("K", "kelvin", "Kelvin") for x in ast.walk(tv))
+        asg = [n for n in walk_shallow(fn) if isinstance(n, ast.Assign) and any(x is ev[0] for x in ast.walk(n.value))]
+        ok = ok and len(asg) == 1 and isinstance(asg[0].value, ast.BinOp) and isinstance(asg[0].value.op, ast.Mult) and "self.param.units" in (U(asg[0].value.left), U(asg[0].value.right))
+    ctx.check(ok, CHEM + ":" + q, "expr-constant-evaluated-at-a-temperature", "a unit-carrying rate expression is evaluated at a temperature in kelvin (number * K) and multiplied by its own unit", node=fn)
     top = [s_ for s_ in fn.body if isinstance(s_, ast.If)]
     ok = len(top) == 1 and U(top[0].test) == "is_quantity(self.param)" and len(top[0].orelse) == 1 and isinstance(top[0].orelse[0], ast.Return) and U(top[0].orelse[0].value) == "True"
     ctx.check(ok, CHEM + ":" + q, "plain-number-accepted", "a constant without units is accepted (units are optional)", node=fn)
